@@ -15,6 +15,9 @@ use crate::case::Case;
 
 pub const WORKERS: u64 = 16;
 
+/// Set once a worker has finished shrinking a violation; the others stop.
+static STOP: std::sync::atomic::AtomicBool = std::sync::atomic::AtomicBool::new(false);
+
 #[derive(Clone, Copy, Debug, PartialEq, Eq)]
 pub enum Tier {
     Quick,
@@ -168,8 +171,9 @@ pub fn run_worker(
     let config = Config {
         cases: cases as u32,
         failure_persistence: None,
-        max_shrink_iters: 20_000,
-        max_shrink_time: 0,
+        max_shrink_iters: 3_000,
+        // safety cap only: affects how small the reported case gets, never the verdict
+        max_shrink_time: 90_000,
         verbose: 0,
         ..Config::default()
     };
@@ -181,6 +185,10 @@ pub fn run_worker(
     let result = runner.run(&strategy, |case| {
         let mut guard = cell.borrow_mut();
         let ctx: &mut Ctx = &mut **guard;
+        // another worker already holds a (shrunk) violation: stop exploring
+        if !ctx.frozen && STOP.load(std::sync::atomic::Ordering::Relaxed) {
+            return Ok(());
+        }
         match run_check(check, &case, ctx) {
             Ok(()) => Ok(()),
             Err(reason) => {
@@ -193,6 +201,7 @@ pub fn run_worker(
     let violation = match result {
         Ok(()) => None,
         Err(TestError::Fail(reason, case)) => {
+            STOP.store(true, std::sync::atomic::Ordering::Relaxed);
             Some(Violation { case, reason: reason.message().to_string() })
         }
         Err(TestError::Abort(reason)) => {
